@@ -152,7 +152,7 @@ func (fr *FnRun) instr(st *State, in ssa.Instruction, depth int) {
 	case *ssa.SliceToArrayPointer:
 		fr.sliceToArrayPtr(st, x)
 	case *ssa.Defer:
-		d := &deferRec{call: x.Common()}
+		d := &deferRec{call: x.Common(), site: x}
 		d.fnv, d.args = fr.evalCallee(st, x.Common())
 		st.defers = append(st.defers, d)
 	case *ssa.Go:
